@@ -103,5 +103,21 @@ def chain_cancel(f_outer, f_inner):
     )
 
 
+def notify_cancel(future):
+    # For a plain Future handed out by this library: make a cancel() of that
+    # future, by whomever, also wake callers blocked in
+    # concurrent.futures.wait() or as_completed(). Future.cancel() alone leaves
+    # the future in a state which those functions do not treat as finished.
+    def callback(f):
+        if f.cancelled():
+            try:
+                f.set_running_or_notify_cancel()
+            except RuntimeError:
+                # already notified
+                pass
+
+    future.add_done_callback(callback)
+
+
 def wrap(f):
     return EXECUTOR.flat_bind(lambda: f)
